@@ -136,6 +136,25 @@ def placements(acc, idx, n):
     body_after = [('data', 2, [('lab', 'GI')]), ('data', 1, [0xEE])]
     dirsets = [(), ('d1',), ('d1', 'd2'), ('d1', 'd1'), ('d2', 'd1'), ('d1', 'd2', 'd1'), ('.',), ('d1', '.')]
     places = [(), ('',), ('d1',), ('d2',), ('', 'd1'), ('d1', 'd2'), ('', 'd2'), ('d3',)]
+    # a file reached through a nested include and then included again (directly, or through a second child: a diamond)
+    for order in itertools.permutations(['inc.asm', 'deep.asm', 'incb.asm'], 2):
+        for dirs in ((), ('d2',)):
+            ctr += 1
+            if ctr % n != idx:
+                continue
+            files = {'inc.asm': INC + [('include', 'deep.asm')], 'incb.asm': [('data', 1, [0x53]), ('include', 'deep.asm')],
+                     ('d2/deep.asm' if dirs else 'deep.asm'): INC_B,
+                     'main.asm': [('data', 1, [0x50])] + [('include', f) for f in order] + [('data', 1, [0xEE])]}
+            ref = R.RefAsm(PARAMS, files, 'main.asm', dirs).run()
+            case = Case(ISA, R.render_files(files), incdirs=dirs)
+            out = acc.run(case)
+            acc.transition()
+            spec = expect_spec(ref)
+            msg = judge_expect(spec, [out])
+            if msg:
+                acc.violation([case], spec, f'includes {order} dirs={dirs}: {msg}', [out])
+            acc.judge(clause='placement-accepted' if ref.status == 'OK' else 'placement-rejected', nontrivial_key=('deep', order, dirs))
+            acc.state(('deep', order, dirs))
     for dirs, where, twice, selfinc, nested in itertools.product(dirsets, places, (False, True), (False, True), (False, True)):
         ctr += 1
         if ctr % n != idx:
